@@ -758,7 +758,12 @@ func lockFn(state int, try bool) intrinFn {
 			if try {
 				return r.ts.Bool(false)
 			}
-			panic(&pathEnd{kind: "deadlock", msg: "Lock of a mutex that is already held at " + r.curPos()})
+			// everything runs on one sequential schedule here, so a second Lock of a held mutex is a self-deadlock
+			// (or a lock leaked earlier on this path): the handler would hang. Reported as a violation; natively the
+			// replay must time out.
+			msg := "Lock of a mutex that is already held at " + r.curPos()
+			r.violation("deadlock", msg)
+			panic(&pathEnd{kind: "violation", msg: msg})
 		}
 		r.mutex[k] = state
 		if try {
